@@ -127,7 +127,7 @@ func checkC07(p *load.Program, r *kit.Report) {
 	}
 	nilRet := func(reach *kit.Reached) *ssa.Return {
 		for _, ret := range kit.Returns(ph) {
-			if reach.Has(ret) && kit.ReturnErrClass(ret) != kit.ErrNonNil {
+			if reach.Has(ret) && reach.ErrClass(ret) != kit.ErrNonNil {
 				return ret
 			}
 		}
@@ -366,7 +366,7 @@ func checkSendBranchUpdate(p *load.Program, r *kit.Report, chF *types.Var) {
 			// the exit returns nil
 			reach := kit.Reach(f, []kit.Pt{kit.EdgeStart(gs[0].FailEdge())}, kit.Opts{})
 			for _, ret := range kit.Returns(f) {
-				if reach.Has(ret) && kit.ReturnErrClass(ret) != kit.ErrNil {
+				if reach.Has(ret) && reach.ErrClass(ret) != kit.ErrNil {
 					bad = "leaving the loop past the tip is reported as an error"
 				}
 			}
